@@ -41,7 +41,9 @@ def cases(draw, tier):
     cfg.update(path=path, savefreq=n, k=k, m=m,
                stepmon=draw(st.sampled_from([None, 'plain', 'verbose', 'logging', 'vlogging'])),
                evalmon=draw(st.sampled_from([None, 'plain', 'plain', 'logging'])),
-               advance=draw(st.sampled_from([0, 0, 1, 2])))
+               advance=draw(st.sampled_from([0, 0, 1, 2])),
+               # cost multiplier of the monitors (k=-1 is the usual 'maximisation' log)
+               monk=draw(st.sampled_from([None, None, -1, 0.5, 100])))
     return cfg
 
 
@@ -61,21 +63,22 @@ def build(case, ctx, tag):
     s = run.solver
     d = ctx.mkdtemp()
     if case.get('evalmon'):
-        s.SetEvaluationMonitor(_mon(case['evalmon'], d, 'eval'))
+        s.SetEvaluationMonitor(_mon(case['evalmon'], d, 'eval', case.get('monk')))
     if case.get('stepmon'):
-        s.SetGenerationMonitor(_mon(case['stepmon'], d, 'step'))
+        s.SetGenerationMonitor(_mon(case['stepmon'], d, 'step', case.get('monk')))
     fn = os.path.join(d, 'state.pkl')
     if case.get('savefreq'):
         s.SetSaveFrequency(case['savefreq'], fn)
     return run, d, fn
 
 
-def _mon(kind, d, name):
+def _mon(kind, d, name, k=None):
     from mystic.monitors import Monitor, VerboseMonitor, LoggingMonitor, VerboseLoggingMonitor
-    if kind == 'plain': return Monitor()
-    if kind == 'verbose': return VerboseMonitor(1)
-    if kind == 'logging': return LoggingMonitor(1, filename=os.path.join(d, name + '.log'))
-    return VerboseLoggingMonitor(1, 1, filename=os.path.join(d, name + '.log'))
+    kw = {} if k is None else {'k': k}
+    if kind == 'plain': return Monitor(**kw)
+    if kind == 'verbose': return VerboseMonitor(1, **kw)
+    if kind == 'logging': return LoggingMonitor(1, filename=os.path.join(d, name + '.log'), **kw)
+    return VerboseLoggingMonitor(1, 1, filename=os.path.join(d, name + '.log'), **kw)
 
 
 def run_case(case, ctx):
@@ -201,6 +204,7 @@ def run_case(case, ctx):
     if case.get('constraint'): ctx.label('con:' + case['constraint']['kind'])
     if case['advance']: ctx.label('original-advanced-first')
     if case.get('de_kwargs'): ctx.label('de-settings-as-keywords')
+    ctx.label('monitor-k:%s' % case.get('monk'))
     ctx.nontrivial(k >= 1 and n_steps >= 2 and changed)
 
 
